@@ -3,7 +3,7 @@
 # copy of /repo, builds, and runs every property's quick check on the copy; prints the properties
 # that alarm (each one is a false alarm to triage, or the change is not behaviour-preserving).
 export GOFLAGS=-mod=mod GOPROXY=off GOSUMDB=off GOTOOLCHAIN=local; unset GOWORK
-src=$1
+src=$(cd "$1" && pwd)
 d=$(mktemp -d /tmp/lalben.XXXXXX)
 rsync -a --exclude .git /repo/ $d/
 if ! (cd $d && patch -p1 -s --no-backup-if-mismatch < $src/patch.diff >/dev/null 2>&1); then echo "$src: PATCH DOES NOT APPLY"; rm -rf $d; exit 3; fi
